@@ -40,6 +40,11 @@ def _jobs(tier):
             js.append({"id": f"O1.composite-unique.int.{KN[k1]}.eq.{OPS[oi2]}", "func": "VerifH_C07_Index",
                        "conf": {"k0": 0, "k1": k1, "unique": 1, "op0": 0, "op1": oi2, "docs": docs, "order": 0, "cnull": 0},
                        "_obligation": "O1+O2", "unwind": 40})
+    # the indexed condition inside an _or whose other branch is on a field the index does not cover
+    for oi in (0, 2, 6):
+        js.append({"id": f"O1.or-branch.int.op{oi}", "func": "VerifH_C07_Index",
+                   "conf": {"k0": 0, "k1": -1, "unique": 0, "op0": oi, "op1": -1, "docs": 2, "order": 0, "cnull": 0, "or": 1},
+                   "_obligation": "O1", "unwind": 40})
     # order served by the index
     for order in (1, 2):
         for op0 in (-1, 2, 5, 6, 0):
